@@ -136,6 +136,7 @@ var props = map[string]propSpec{
 	"C15": {Harnesses: []harnessSpec{
 		{Pkg: "protocol", Fn: "VerifC15WriteSetStubbed", Loop: 24, Validate: 8, MustReach: []string{"end"}},
 		{Pkg: "protocol", Fn: "VerifC15WriteSet", Loop: 24, Validate: 8, MustReach: []string{"end"}, ShardBits: 4},
+		{Pkg: "protocol", Fn: "VerifC15AfterRejected", Validate: 4, MustReach: []string{"end"}},
 	}, Assumptions: with("REDUCED CLAIM: write-set isolation (a sufficient condition for handshakes not influencing each other through memory); interleavings themselves and data races are not decided by this technique", "writes made by Storage implementations are the environment's and exempt", "a reallocating append may return spare capacity (vf.AppendSpare): the Go runtime rounds capacities up"), Explanation: "one complete TLS callback with the real fetch and certificate-generation functions (and a stubbed variant for larger slices) writes nothing into memory that existed before it started, for every length and spare capacity of the application's option slice and of the listener's copy, for token, node-led, authentication and base handshakes"},
 	"C16": {Harnesses: []harnessSpec{
 		{Pkg: "protocol", Fn: "VerifC16Protos", Validate: 8, MustReach: []string{"end"}},
@@ -164,6 +165,7 @@ var props = map[string]propSpec{
 		{Pkg: "tls", Fn: "VerifC20InterleavedAuth", Loop: 12, Validate: 8, MustReach: []string{"end"}, Panics: true},
 		{Pkg: "tls", Fn: "VerifC20Malformed", Validate: 4, MustReach: []string{"end"}, Panics: true},
 		{Pkg: "tls", Fn: "VerifC20Lemma267", Validate: 0, Panics: true, CrossSolver: "z3"},
+		{Pkg: "tls", Fn: "VerifC20Chunks13", Loop: 16, Validate: 2, MustReach: []string{"end"}, Panics: true},
 		{Pkg: "tls", Fn: "VerifC20Chunks20", Loop: 24, Validate: 2, MustReach: []string{"end"}, Panics: true, ThoroughOnly: true},
 	}, Assumptions: with("strings are byte sequences (code points 0..255); UTF-8 decoding ([]rune conversions, range over string) is not encoded", "the ClientHello limit is taken as 268 entries (65535 / minimal entry size); the per-chunk lemma covers chunk indices 0..267"),
 		Explanation: "whole-function round trip for 1..4 chunks with symbolic content and length, the same with two unrelated names interleaved at arbitrary positions for both request prefixes, arbitrary malformed entries, and the per-chunk inductive lemma by loop cut up to the ClientHello limit"},
